@@ -187,6 +187,30 @@ def bech32data_new(cls: Const(CBech32Data), s: Str):
     ensures(result == bytes(conv58(bech_data(s)[1:])) and result.witver == bech_data(s)[0])
 
 
+@contract('bitcoin.bech32:CBech32Data.__new__', name='bech32data_after_other_chains', prop=P)
+def bech32data_after_other_chains(cls: Const(CBech32Data), s: Str):
+    """BOUNDED: whatever chains were selected before and whatever was parsed under them (the same text included), the
+    text is accepted exactly when it is a BIP173 address of the prefix selected NOW"""
+    option(bounded=300, chains=True)
+    raises(Bech32Error, when=ref_bech32_decode(CHAIN_HRP[CHAIN], s) is None)
+    ensures(bytes(result) == ref_bech32_decode(CHAIN_HRP[CHAIN], s)[1] and result.witver == ref_bech32_decode(CHAIN_HRP[CHAIN], s)[0])
+
+
+CHAIN_HRP = {'mainnet': 'bc', 'testnet': 'tb', 'signet': 'tb', 'regtest': 'bcrt'}
+
+
+def _build_c11_hist(inputs, chain):
+    import bitcoin as _b
+    for other in inputs['history']:
+        _b.SelectParams(other)
+        try:
+            CBech32Data(inputs['s'])
+        except Exception:
+            pass
+    _b.SelectParams(chain)
+    return {'cls': CBech32Data, 's': inputs['s']}
+
+
 @contract('bitcoin.bech32:CBech32Data.__str__', name='bech32data_str', prop=P)
 def bech32data_str(self: Bytes(cls=CBech32Data, attrs={'witver': Int})):
     """object -> text: the encoder's result for the selected chain's prefix"""
@@ -252,7 +276,11 @@ def _hrp(rng):
     # other prefixes, among them long ones (1..83 characters are allowed; the 90-character limit on the whole string is
     # only reached with them)
     n = rng.randint(1, 10) if r < 0.9 else rng.choice([30, 31, 50, 51, 52, 60, 83, rng.randint(11, 83)])
-    return ''.join(chr(rng.randint(33, 126)) for _ in range(n)).lower().replace('1', 'x') or 'a'
+    h = ''.join(chr(rng.randint(33, 126)) for _ in range(n)).lower()
+    if rng.random() < 0.5:
+        # a prefix may itself contain '1': the separator is the LAST '1' of the string
+        return rng.choice(['a1b', 'test1', '1x', 'x1', '11', h.replace('1', 'x')[:3] + '1' + h[3:]])
+    return h.replace('1', 'x') or 'a'
 
 
 _GEN = (0x3b6a57b2, 0x26508e6d, 0x1ea119fa, 0x3d4233dd, 0x2a1462b3)
@@ -394,6 +422,10 @@ def _gen_conv58(rng):
     return {'data': {'__list__': vals}, 'frombits': 5, 'tobits': 8, 'pad': False}
 
 
+_replay.BUILD_HOOKS['c11_hist'] = _build_c11_hist
+_replay.GENERATORS['bech32data_after_other_chains'] = lambda rng: {
+    '__build__': 'c11_hist', 's': _gen_decode(rng)['addr'] if rng.random() < 0.3 else _valid(rng, rng.choice(['bc', 'tb', 'bcrt']))[1],
+    'history': [rng.choice(['mainnet', 'testnet', 'signet', 'regtest']) for _ in range(rng.randint(1, 3))]}
 _replay.GENERATORS.update({
     'polymod_is_bch': lambda rng: {'values': {'__list__': [rng.randrange(32) for _ in range(rng.choice([0, 1, 5, 6, 7, 20, 45, 90]))]}},
     'segwit_decode_bip173': _gen_decode, 'segwit_decode_c': _gen_decode,
